@@ -14,7 +14,7 @@ func init() {
 	core.Register(&core.Spec{
 		ID: "C12", Level: "exploration",
 		Rule: "one case = one generated program (filters, joins, GROUP BY with/without ORDER BY, DISTINCT, set operators, LISTAGG/JSON_AGG, analytic functions, ORDER BY with ties + LIMIT, and DML whose result is committed: INSERT..SELECT, UPDATE, DELETE, REPLACE, CREATE TABLE AS, ALTER ADD) over tables whose sizes straddle the goroutine-split thresholds; " +
-			"it is executed by the real binary once with --cpu 1 and then with --cpu 2,3,4,8,16, twice each, with seeded scheduling jitter in the worker goroutines; stdout bytes and every file in the directory must be identical. " +
+			"it is executed by the real binary once with --cpu 1 and then again with --cpu 1 and with --cpu 2,3,4,8,16, twice each, with seeded scheduling jitter in the worker goroutines; stdout bytes and every file in the directory must be identical. " +
 			"non-trivial = at least one cpu>1 execution really ran a section on >1 worker goroutine (observed through the hook trace); distinct = program digest.",
 		Quick: 96, Thorough: 2400, FloorQuick: 60, FloorThorough: 1500,
 		CaseTimeout: 10 * time.Minute,
@@ -90,7 +90,7 @@ func c12Case(w *core.Worker, i int) {
 	parallel := false
 	runs := 0
 	tracePath := filepath.Join(w.Work, "trace.log")
-	for _, cpu := range []int{2, 3, 4, 8, 16} {
+	for _, cpu := range []int{1, 2, 3, 4, 8, 16} { // cpu 1 again: map-iteration order must not show either
 		for rep := 0; rep < 2; rep++ {
 			jit := r.U64() | 1
 			o := exec(cpu, jit, tracePath)
